@@ -3,6 +3,7 @@ import Hv.Driver.Vdi
 import Hv.Driver.Vhd
 import Hv.Driver.Hds
 import Hv.Driver.Vhdx
+import Hv.Driver.Vmdk
 open Hv Hv.Driver
 
 def dispatch (st : St) (toks : List String) : String :=
@@ -13,6 +14,7 @@ def dispatch (st : St) (toks : List String) : String :=
     else if cmd.startsWith "vhd." then vhdCmd st toks
     else if cmd.startsWith "hds." then hdsCmd st toks
     else if cmd.startsWith "vhdx." then vhdxCmd st toks
+    else if cmd.startsWith "vmdk." then vmdkCmd st toks
     else "bad-cmd"
 
 partial def loop (h : IO.FS.Stream) (out : IO.FS.Stream) (st : St) : IO Unit := do
